@@ -102,3 +102,18 @@
                 final(buf)@ == stream_take(old(self).stream(), old(self).pos(), old(buf).len() as int),
         { unimplemented!() }
     }
+    // ---- FIPS 204 Algorithm 30 (RejNTTPoly) as a relation between the XOF stream and the sampled polynomial:
+    // sample k is bytes [3k, 3k+3); it is accepted iff CoeffFromThreeBytes < q; coefficient j is the j-th accepted sample.
+    pub open spec fn rej3_val(s: spec_fn(int) -> u8, k: int) -> int { spec_coeff3(s(3 * k) as int, s(3 * k + 1) as int, s(3 * k + 2) as int) }
+    pub open spec fn rej3_acc(s: spec_fn(int) -> u8, k: int) -> bool { rej3_val(s, k) < Q }
+    pub open spec fn rej3_cnt(s: spec_fn(int) -> u8, k: int) -> int
+        decreases k
+    {
+        if k <= 0 { 0 } else { rej3_cnt(s, k - 1) + (if rej3_acc(s, k - 1) { 1int } else { 0int }) }
+    }
+    pub open spec fn rej_ntt_at(s: spec_fn(int) -> u8, a: T, j: int, k: int) -> bool {
+        0 <= k && rej3_acc(s, k) && rej3_cnt(s, k) == j && a.0[j] == rej3_val(s, k)
+    }
+    pub open spec fn rej_ntt_rel(s: spec_fn(int) -> u8, a: T) -> bool {
+        exists|wit: Seq<int>| wit.len() == 256 && forall|j: int| 0 <= j < 256 ==> #[trigger] rej_ntt_at(s, a, j, wit[j])
+    }
